@@ -177,7 +177,7 @@ def register(R):
         }
 
     R.contract(
-        f'{SWS}.acquire', props=['C12', 'C11'], self_type=SH, old_at='acquire', top=True,
+        f'{SWS}.acquire', props=['C12', 'C11', 'C10'], self_type=SH, old_at='acquire', top=True,
         params=dict(tag=ExtT('tag'), blocking=Bool),
         ensures=acquire_post,
         raises={f'{UT}:NoResourcesAvailable': lambda c: {
@@ -216,7 +216,7 @@ def register(R):
         }
 
     R.contract(
-        f'{SWS}.release', props=['C12'], self_type=SH, old_at='acquire', top=True,
+        f'{SWS}.release', props=['C12', 'C10', 'C11'], self_type=SH, old_at='acquire', top=True,
         params=dict(tag=ExtT('tag'), acquire_token=Int),
         # call-site precondition (BoundedExecutor.submit releases each token once): a token that is
         # still pending is not released a second time
